@@ -1,4 +1,5 @@
 from ..framework import Spec
-from ..ties_out import formats_tie
+from ..ties_out import formats_tie, formats_scenario_tie
+from ..scenarios import gen_small_space_scenario
 
-SPEC = Spec(pid='C16', coq_needs=['Base', 'Program', 'Formats', 'Properties/C16'], ties=[formats_tie()])
+SPEC = Spec(pid='C16', coq_needs=['Base', 'Program', 'Formats', 'Properties/C16'], ties=[formats_tie(), formats_scenario_tie('small_spaces', gen_small_space_scenario, 80, 1500)])
